@@ -81,7 +81,17 @@ pub fn chaos_sql(rng: &mut Rng, w: &World, guards: &[String]) -> String {
     for _ in 0..20 {
         let s = chaos_once(rng, w);
         let u = s.to_uppercase();
-        if has("division_or_modulo_by_zero") && (u.contains("/") || u.contains("%")) {
+        // operators are looked for outside string literals ('%' inside a LIKE pattern is not a modulo)
+        let mut code = String::new();
+        let mut in_str = false;
+        for ch in u.chars() {
+            if ch == '\'' {
+                in_str = !in_str;
+            } else if !in_str {
+                code.push(ch);
+            }
+        }
+        if has("division_or_modulo_by_zero") && (code.contains('/') || code.contains('%')) {
             continue;
         }
         if has("case_expression") && u.contains("CASE") {
@@ -139,7 +149,36 @@ fn exotic(rng: &mut Rng, w: &World, has: &dyn Fn(&str) -> bool) -> Option<String
     if cands.is_empty() { None } else { Some(rng.pick(&cands).clone()) }
 }
 
+fn like_query(rng: &mut Rng, w: &World) -> Option<String> {
+    let (t, cols) = rng.pick(&w.tables).clone();
+    let tc = cols.iter().find(|c| c.1)?.0.clone();
+    // wildcard, escape and literal characters in any arrangement
+    let n = rng.range(1, 6);
+    let pat: String = (0..n).map(|_| *rng.pick(&["%", "%", "_", "\\%", "\\_", "\\", "s", "0", "x"])).collect();
+    Some(format!("SELECT * FROM {t} WHERE {tc} {}LIKE '{pat}'", if rng.chance(30) { "NOT " } else { "" }))
+}
+
+fn call_query(rng: &mut Rng, w: &World) -> String {
+    let (t, cols) = rng.pick(&w.tables).clone();
+    let c = rng.pick(&cols).clone();
+    let f = *rng.pick(&["ABS", "SQRT", "CEIL", "FLOOR", "ROUND", "UPPER", "LOWER", "LENGTH", "COALESCE", "CONCAT", "TRIM", "SUBSTR", "POWER", "MOD"]);
+    let nargs = rng.below(4);
+    let args: Vec<String> = (0..nargs).map(|_| match rng.below(4) { 0 => c.0.clone(), 1 => "NULL".into(), 2 => "'t'".into(), _ => "2".into() }).collect();
+    format!("SELECT {f}({}) FROM {t}", args.join(", "))
+}
+
 fn chaos_once(rng: &mut Rng, w: &World) -> String {
+    if !w.tables.is_empty() {
+        match rng.below(14) {
+            0 => {
+                if let Some(q) = like_query(rng, w) {
+                    return q;
+                }
+            }
+            1 => return call_query(rng, w),
+            _ => {}
+        }
+    }
     match rng.below(12) {
         0 => {
             let n = rng.below(60) as usize;
@@ -194,7 +233,7 @@ fn chaos_once(rng: &mut Rng, w: &World) -> String {
             // ill-typed or exotic queries
             let (t, cols) = rng.pick(&w.tables).clone();
             let c = rng.pick(&cols).clone();
-            match rng.below(12) {
+            match rng.below(15) {
                 0 => format!("SELECT {} + 'x' FROM {t}", c.0),
                 1 => format!("SELECT * FROM {t} WHERE {} LIKE NULL", c.0),
                 2 => format!("SELECT * FROM {t} WHERE {} = 'abc' AND {} = 5", c.0, c.0),
@@ -206,6 +245,20 @@ fn chaos_once(rng: &mut Rng, w: &World) -> String {
                 8 => format!("SELECT DISTINCT {} FROM {t} ORDER BY {} DESC LIMIT 2 OFFSET 100", c.0, c.0),
                 9 => format!("SELECT * FROM {t} WHERE {} BETWEEN 'a' AND 5", c.0),
                 10 => format!("SELECT * FROM {t} WHERE {} IN (1, 'a', NULL)", c.0),
+                11 => {
+                    // LIKE / NOT LIKE with wildcard, escape and literal characters in any arrangement
+                    let n = rng.range(1, 7);
+                    let pat: String = (0..n).map(|_| *rng.pick(&["%", "%", "_", "\\%", "\\_", "\\", "s", "0", "x", "a"])).collect();
+                    let tc = cols.iter().find(|c| c.1).map(|c| c.0.clone()).unwrap_or(c.0.clone());
+                    format!("SELECT * FROM {t} WHERE {tc} {}LIKE '{pat}'", if rng.chance(30) { "NOT " } else { "" })
+                }
+                12 | 13 => {
+                    // scalar functions with every arity from none to three
+                    let f = *rng.pick(&["ABS", "SQRT", "CEIL", "FLOOR", "ROUND", "UPPER", "LOWER", "LENGTH", "COALESCE", "CONCAT", "TRIM", "SUBSTR", "POWER", "MOD"]);
+                    let nargs = rng.below(4);
+                    let args: Vec<String> = (0..nargs).map(|_| match rng.below(4) { 0 => c.0.clone(), 1 => "NULL".into(), 2 => "'t'".into(), _ => "2".into() }).collect();
+                    format!("SELECT {f}({}) FROM {t}", args.join(", "))
+                }
                 _ => format!("SELECT MAX({}), MIN({}), SUM({}), AVG({}) FROM {t}", c.0, c.0, c.0, c.0),
             }
         }
